@@ -13,6 +13,9 @@ open Nstd.Generated
 theorem upd_same {β : Type} (f : Nat → β) (a : Nat) (x : β) : upd f a x a = x := by simp [upd]
 theorem upd_ne {β : Type} (f : Nat → β) (a b : Nat) (x : β) (h : b ≠ a) : upd f a x b = f b := by simp [upd, h]
 
+theorem needGrow_iff (A : Arr) (s : Nat) : (needGrow A s = true) = (s > A.cap ∨ (A.begin.isNone = true ∧ s > 0)) := by
+  simp [needGrow]
+
 theorem rd_at (M : Mem) (b i : Nat) (cs : Cells) (h : M.blocks b = some cs) : rd M (some (b, i)) = readCell cs i := by
   simp [rd, h]
 
@@ -49,9 +52,9 @@ theorem reserve_loop1_spec (A : Arr) (sz : Nat) (nd : Option P) (bo bn n : Nat) 
     ∀ (k i fuel : Nat) (M : Mem) (oldc new : Cells), i + k = n → k < fuel →
       M.blocks bo = some oldc → M.blocks bn = some new → (∀ j, i ≤ j → readCell oldc j = readCell old j) →
       (moveLoop old new i k = none →
-        SeqArr.reserve_loop1 fuel M A sz nd (some (bn, i)) (some (bo, i)) (some (bo, n)) = none) ∧
+        SeqArr.grow_loop1 fuel M A sz nd (some (bn, i)) (some (bo, i)) (some (bo, n)) = none) ∧
       (∀ new', moveLoop old new i k = some new' → ∃ M',
-        SeqArr.reserve_loop1 fuel M A sz nd (some (bn, i)) (some (bo, i)) (some (bo, n)) =
+        SeqArr.grow_loop1 fuel M A sz nd (some (bn, i)) (some (bo, i)) (some (bo, n)) =
           some (M', A, sz, nd, some (bn, n), some (bo, n), some (bo, n)) ∧
         M'.blocks bn = some new' ∧ (M'.blocks bo).isSome ∧ M'.brk = M.brk ∧
         ∀ b, b ≠ bo → b ≠ bn → M'.blocks b = M.blocks b) := by
@@ -62,7 +65,7 @@ theorem reserve_loop1_spec (A : Arr) (sz : Nat) (nd : Option P) (bo bn n : Nat) 
     obtain ⟨f, rfl⟩ : ∃ f, fuel = f + 1 := ⟨fuel - 1, by omega⟩
     have : i = n := by omega
     subst this
-    simp only [moveLoop, SeqArr.reserve_loop1, pne_off]
+    simp only [moveLoop, SeqArr.grow_loop1, pne_off]
     simp
     exact ⟨hbn, by simp [hbo]⟩
   | succ k ih =>
@@ -70,7 +73,7 @@ theorem reserve_loop1_spec (A : Arr) (sz : Nat) (nd : Option P) (bo bn n : Nat) 
     obtain ⟨f, rfl⟩ : ∃ f, fuel = f + 1 := ⟨fuel - 1, by omega⟩
     have hin : i ≠ n := by omega
     have hrd : rd M (some (bo, i)) = readCell old i := by rw [rd_at M bo i oldc hbo]; exact hinv i (Nat.le_refl _)
-    simp only [moveLoop, SeqArr.reserve_loop1, pne_off, hrd]
+    simp only [moveLoop, SeqArr.grow_loop1, pne_off, hrd]
     simp only [hin, ne_eq, not_false_eq_true, decide_true, if_true]
     cases hr : readCell old i with
     | none => simp
